@@ -27,7 +27,7 @@ from mc import machine as M
 from mc import trees as TR
 from mc.chains import Chain, sectors
 from mc.space import plane_trees
-from mc.ref.dense import close
+from mc.ref.dense import close, rel_err
 
 ID = "C14"
 LEVEL = "fault_enumeration"
@@ -355,6 +355,40 @@ def run_roundtrip(desc, seed):
                         continue
                     if not close(M.dense_of(l), ref, 1e-12, floor=1e-14):
                         add(viol, f"C14:roundtrip:loaded-object-shares-prefactor:{how}", f"{tag}: 'd = loaded.{how}; d.coeff *= c' changed the loaded object itself (coeff now {l.coeff!r})")
+                        break
+            # ... and so must in-place gauge moves / truncation of a derived object (bond labels, centre, direction of the loaded
+            # object are its own)
+            if desc["kind"] != "mpo" and not viol and o.site_num >= 2:
+                from renormalizer.utils import CompressConfig, CompressCriteria
+                ref = M.dense_of(o)
+                qn_before = [np.array(q, dtype=int).copy() for q in l.qn]
+                for how, derive in (("copy()", lambda z: z.copy()), ("conj()", lambda z: z.conj()), ("to_complex()", lambda z: z.to_complex()),
+                                    ("scale(2)", lambda z: z.scale(2.0))):
+                    try:
+                        dd = derive(l)
+                        dd.ensure_left_canonical()
+                        dd.ensure_right_canonical()
+                        dd.compress_config = CompressConfig(CompressCriteria.fixed, max_bonddim=1)
+                        dd.compress()
+                        dd.move_qnidx(dd.site_num // 2)
+                    except M.Disabled:
+                        continue
+                    except Exception as e:
+                        add(viol, f"C14:roundtrip:derived-object-exception:{type(e).__name__}", f"{tag}: gauge moves on loaded.{how} raised {e!r}")
+                        break
+                    same_qn = len(l.qn) == len(qn_before) and all(np.array_equal(np.array(a, dtype=int), b) for a, b in zip(l.qn, qn_before))
+                    if not same_qn:
+                        add(viol, f"C14:roundtrip:loaded-object-shares-labels:{how}", f"{tag}: re-gauging / truncating 'loaded.{how}' changed the bond labels of the loaded object itself")
+                        break
+                    try:
+                        probe = _copy.deepcopy(l)
+                        probe.ensure_left_canonical()
+                        probe.ensure_right_canonical()
+                        if not close(M.dense_of(probe), ref, 1e-10, floor=1e-14):
+                            add(viol, f"C14:roundtrip:loaded-object-unusable-after-derived-gauge-move:{how}", f"{tag}: after re-gauging 'loaded.{how}' a sweep over the loaded object changes it by rel {rel_err(M.dense_of(probe), ref):.2e}")
+                            break
+                    except Exception as e:
+                        add(viol, f"C14:roundtrip:loaded-object-unusable-after-derived-gauge-move:{how}", f"{tag}: after re-gauging 'loaded.{how}' a sweep over the loaded object raised {e!r}")
                         break
         mb = max(o.bond_dims)
     finally:
